@@ -258,6 +258,21 @@ func (p Prog) States() (states []State, kinds []string) {
 	return
 }
 
+// stateOp returns the i-th (0-based) state-changing op.
+func (p Prog) stateOp(i int) Op {
+	n := 0
+	for _, op := range p.Ops {
+		switch op.Kind {
+		case "txn", "atxn", "atxnwait", "dropprefix", "dropall":
+			if n == i {
+				return op
+			}
+			n++
+		}
+	}
+	return Op{}
+}
+
 // ReadState reads every visible key of the DB with a forward scan and cross-checks it with Get.
 func ReadState(db *badger.DB, keys [][]byte) (State, error) {
 	st := State{}
